@@ -92,6 +92,8 @@ type sstate struct {
 	assigns []assignRec
 	maxSlot int // deepest entry slot touched (-1 none)
 	seq     int
+	selVals map[string]val // values of selector expressions fixed by the analysis (decision-table enumeration) or assigned constants
+	rebased string         // non-empty once the stack was truncated to a symbolic level: entry slots are no longer addressable
 	und     []string
 	undPos  []token.Pos
 }
@@ -115,6 +117,12 @@ func (s *sstate) clone() *sstate {
 	o.assigns = append([]assignRec{}, s.assigns...)
 	o.und = append([]string{}, s.und...)
 	o.undPos = append([]token.Pos{}, s.undPos...)
+	if s.selVals != nil {
+		o.selVals = map[string]val{}
+		for k, v := range s.selVals {
+			o.selVals[k] = v
+		}
+	}
 	return &o
 }
 
@@ -139,6 +147,9 @@ func (s *sstate) readDepth(d int) val {
 	}
 	if d < len(s.pushed) {
 		return s.pushed[len(s.pushed)-1-d]
+	}
+	if s.rebased != "" {
+		return unk("stack-below-" + s.rebased)
 	}
 	slot := s.base + d - len(s.pushed)
 	s.touch(slot)
@@ -615,6 +626,13 @@ func (se *symExec) assignTo(lhs ast.Expr, v val, st *sstate, pos token.Pos, src 
 					n := st.h.sub(v.lin)
 					if n.isConst() && n.c >= 0 && !strings.HasPrefix(v.desc, "append") {
 						st.pop(int(n.c))
+					} else if !strings.HasPrefix(v.desc, "append") {
+						// truncation to a symbolic level: track what is pushed above it from here on
+						st.h = v.lin.clone()
+						st.conc = true
+						st.pushed = nil
+						st.base = 0
+						st.rebased = v.lin.String()
 					} else {
 						st.h = v.lin.clone()
 						st.conc = false
@@ -627,6 +645,14 @@ func (se *symExec) assignTo(lhs ast.Expr, v val, st *sstate, pos token.Pos, src 
 		}
 		st.seq++
 		st.assigns = append(st.assigns, assignRec{lhs: se.canon(l), rhs: v, src: src, pos: pos, seq: st.seq})
+		if st.selVals != nil {
+			// later reads of this field on this path see the assigned value
+			if v.kind != vUnknown || v.desc != "" {
+				st.selVals[se.canon(l)] = v
+			} else {
+				delete(st.selVals, se.canon(l))
+			}
+		}
 		return
 	case *ast.IndexExpr:
 		if se.isStack(l.X) {
@@ -779,6 +805,11 @@ func (se *symExec) eval(e ast.Expr, st *sstate) []ev {
 		}
 		if se.isStack(x) {
 			return one(st, val{kind: vStack})
+		}
+		if st.selVals != nil {
+			if v, ok := st.selVals[se.canon(x)]; ok {
+				return one(st, v)
+			}
 		}
 		// field read: evaluate the base for effects
 		if _, isPkg := se.info.Uses[identOf(x.X)].(*types.PkgName); isPkg {
